@@ -272,7 +272,10 @@ class Ctx:
         import re as _re
         edir = os.path.join(VERIF, "evidence") if _re.fullmatch(r"C\d\d", self.pid) else os.path.join(VERIF, "evidence", "aux")
         os.makedirs(edir, exist_ok=True)
-        json.dump(ev, open(os.path.join(edir, f"{self.pid}.json"), "w"), indent=1)
+        # VERIF_NO_EVIDENCE=1: a run against a deliberately changed /repo (seeded changes) must not
+        # overwrite the record of the last run on the unchanged tree
+        if not os.environ.get("VERIF_NO_EVIDENCE"):
+            json.dump(ev, open(os.path.join(edir, f"{self.pid}.json"), "w"), indent=1)
         for l in lines:
             print(l)
         print(f"{self.pid}: {'FAIL' if rc else 'ok'} tier={self.tier} seed={self.seed} "
